@@ -188,6 +188,22 @@ func c10Run(c c10Case) (string, string) {
 			})
 		}
 	}
+	if strings.HasPrefix(c.Pattern, "k") {
+		// a store that keeps counterparties apart
+		ks := newKeyedStore()
+		wc.CS, wc.MS = ks, ks
+	}
+	if strings.HasPrefix(c.Pattern, "m") {
+		// an application handler that re-stamps every outgoing message (registered after the session's own hooks,
+		// before the session is started): what it writes is part of what was transmitted, and of what is
+		// transmitted again
+		wc.PreRun = func(w *world) {
+			w.h.HandleOutgoing(simplefixgo.AllMsgTypes, func(m simplefixgo.SendingMessage) bool {
+				m.HeaderBuilder().SetFieldSendingTime("20240101-00:00:59.999")
+				return true
+			})
+		}
+	}
 	w := newWorld(wc)
 	if c.Gap != nil {
 		_ = w.st.SetSeqNum(fix.StorageID{Side: fix.Incoming}, c.Gap[0])
@@ -238,7 +254,7 @@ func c10Run(c c10Case) (string, string) {
 		}
 		sent[k-1], have[k] = o, true
 	}
-	if !strings.ContainsAny(c.Pattern, "pg") {
+	if !strings.ContainsAny(c.Pattern, "pgmk") {
 		// number 1 is the logon message, letter i of the pattern takes number i+2; a refused message leaves its number unused
 		for i := range c.Pattern {
 			if have[i+2] != (c.Pattern[i] != 'r') {
@@ -395,6 +411,11 @@ func runC10(R *vlib.Out) {
 		for _, p := range append([]string{}, pats...) {
 			if len(p) < maxN {
 				pats = append(pats, "g"+p)
+			}
+		}
+		for _, p := range append([]string{}, pats...) {
+			if len(p) <= 3 && !strings.ContainsAny(p, "pg") {
+				pats = append(pats, "m"+p, "k"+p)
 			}
 		}
 		// one refused application message at every position of every short history of replies and application
